@@ -19,8 +19,8 @@ static mutex_t* mtx;
 static int kind[NACC];                      // 0 read, 1 readwrite
 static std::uint32_t granted[NACC];
 static int grants[NACC], released[NACC], active[NACC];
-static std::optional<r_wrap> held_r[NACC];
-static std::optional<w_wrap> held_w[NACC];
+static r_wrap* held_r[NACC];    // heap objects of their own type (a byte-storage optional costs CBMC a byte-level update per store)
+static w_wrap* held_w[NACC];
 
 static void on_grant(int i)
 {
@@ -44,12 +44,12 @@ struct recv
     int i;
     void set_value(r_wrap w) && noexcept
     {
-        held_r[i].emplace(std::move(w));
+        held_r[i] = new r_wrap(std::move(w));
         on_grant(i);
     }
     void set_value(w_wrap w) && noexcept
     {
-        held_w[i].emplace(std::move(w));
+        held_w[i] = new w_wrap(std::move(w));
         on_grant(i);
     }
     void set_error(std::exception_ptr) && noexcept { verif_assert(0, "access sender must not signal an error"); }
@@ -63,15 +63,18 @@ using w_op = ex::connect_result_t<w_sender, recv>;
 static r_op* ops_r[NACC];
 static w_op* ops_w[NACC];
 
+// separate out-of-line makers: clang otherwise hoists the two equally sized operator new calls into one untyped allocation
+__attribute__((noinline)) static void make_w(int i) { ops_w[i] = new w_op(ex::connect(mtx->readwrite(), recv{i})); }
+__attribute__((noinline)) static void make_r(int i) { ops_r[i] = new r_op(ex::connect(mtx->read(), recv{i})); }
 extern "C" void rw_init()
 {
     mtx = new mutex_t();
     for (int i = 0; i < NACC; ++i)
     {
         kind[i] = (int) verif_nondet_range(0, 1);
-        if (kind[i]) ops_w[i] = new w_op(ex::connect(mtx->readwrite(), recv{i}));
+        if (kind[i]) make_w(i);
         else
-            ops_r[i] = new r_op(ex::connect(mtx->read(), recv{i}));
+            make_r(i);
     }
 }
 static void access(int i)
@@ -82,9 +85,9 @@ static void access(int i)
     verif_block_until(&granted[i]);    // the grant may arrive inline or from the releasing thread
     active[i] = 0;
     released[i] = 1;
-    if (kind[i]) held_w[i].reset();
+    if (kind[i]) { delete held_w[i]; held_w[i] = nullptr; }
     else
-        held_r[i].reset();
+        { delete held_r[i]; held_r[i] = nullptr; }
 }
 extern "C" void rw_thread_0() { access(0); }
 extern "C" void rw_thread_1() { access(1); }
